@@ -136,6 +136,29 @@ func customModel() map[string]m.CustomFn {
 			return s, nil
 		},
 		"c_fail": func(a []interface{}, _ int64) (interface{}, error) { return nil, m.ErrCustom },
+		// strict boolean operators whose names merely look like and / or: andn = not all, orn = not any
+		"andn": func(a []interface{}, _ int64) (interface{}, error) {
+			all := true
+			for _, x := range a {
+				b, ok := x.(bool)
+				if !ok {
+					return nil, m.ErrCustom
+				}
+				all = all && b
+			}
+			return !all, nil
+		},
+		"orn": func(a []interface{}, _ int64) (interface{}, error) {
+			any := false
+			for _, x := range a {
+				b, ok := x.(bool)
+				if !ok {
+					return nil, m.ErrCustom
+				}
+				any = any || b
+			}
+			return !any, nil
+		},
 		// c_re is the identity; C07 registers a version that re-enters the program it is part of
 		"c_re": func(a []interface{}, _ int64) (interface{}, error) {
 			if len(a) != 1 {
@@ -147,7 +170,7 @@ func customModel() map[string]m.CustomFn {
 	}
 }
 
-var customNames = []string{"c_cat", "c_cnt", "c_fail", "c_id", "c_not", "c_re", "c_sum"}
+var customNames = []string{"andn", "c_cat", "c_cnt", "c_fail", "c_id", "c_not", "c_re", "c_sum", "orn"}
 
 // Log records the effects the engine performs, in order.
 type Log struct {
